@@ -179,7 +179,7 @@ def run_coq_shards(chk: Check, tag: str, items, make_file, per_file=400, workers
     failing, errors = set(), []
 
     def one(j):
-        ok, out = chk.coq_eval(f"c02_{tag}_{j}", make_file(shards[j]), timeout=900)
+        ok, out = chk.coq_eval(f"c02_{tag}_{os.getpid()}_{j}", make_file(shards[j]), timeout=900)
         return j, ok, out
 
     with ThreadPoolExecutor(max_workers=workers) as ex:
@@ -199,24 +199,33 @@ def launch_workers(chk: Check, reqs):
     def one(item):
         cap, req = item
         env = {GUARD: cap}
-        rc, out, err = chk.impl("c02_worker.py", [], input=json.dumps(req), timeout=req.get("timeout", 1500), env=env)
-        recs, begun, done = [], None, False
-        for line in out.splitlines():
-            try:
-                o = json.loads(line)
-            except Exception:
-                continue
-            if "begin" in o:
-                begun = o
-            elif o.get("done"):
-                done = True
+        all_recs, crashes, err, rc = [], [], "", 0
+        cur = dict(req)
+        for attempt in range(6):
+            rc, out, err = chk.impl("c02_worker.py", [], input=json.dumps(cur), timeout=cur.get("timeout", 1500), env=env)
+            begun, done = None, False
+            for line in out.splitlines():
+                try:
+                    o = json.loads(line)
+                except Exception:
+                    continue
+                if "begin" in o:
+                    begun = o
+                elif o.get("done"):
+                    done = True
+                else:
+                    all_recs.append(o)
+                    begun = None
+            if done:
+                break
+            crashes.append((begun or {"begin": "?"}, rc, (err or "")[-300:]))
+            if cur.get("mode") == "sweep" and begun and isinstance(begun.get("begin"), str) and "." in begun["begin"]:
+                cur = dict(cur, resume=begun["begin"])  # carry on after the case that killed the worker
+            elif cur.get("mode") == "operators" and begun and isinstance(begun.get("begin"), int):
+                cur = dict(cur, resume_index=begun["begin"])
             else:
-                recs.append(o)
-                begun = None
-        crashed = None
-        if not done:
-            crashed = begun or {"begin": "?"}
-        return cap, req, recs, crashed, (err or "")[-800:], rc
+                break
+        return cap, req, all_recs, crashes, (err or "")[-800:], rc
 
     with ThreadPoolExecutor(max_workers=8) as ex:
         return list(ex.map(one, reqs))
@@ -366,7 +375,7 @@ def validate_stream(chk: Check, n: int):
         chk.broken.append({"kind": "harness", "what": "validate worker failed", "stderr": err})
         return
     py = [r["result"] for r in recs]
-    ok, out = chk.coq_eval("c02_validate", validate_file(structs), timeout=600)
+    ok, out = chk.coq_eval(f"c02_validate_{os.getpid()}", validate_file(structs), timeout=600)
     cq = parse_verr(out) if ok else None
     if cq is None or len(cq) != len(py):
         chk.broken.append({"kind": "harness", "what": "validate Coq evaluation failed", "output": out[-1500:]})
@@ -466,6 +475,11 @@ class Judge:
             chk.count("error:" + rec["error"].split(":")[0])
             self.violation("evaluate raised an undocumented error: " + rec["error"], payload)
             return
+        if rec["status"] == "machine-only":
+            chk.count("real-kernel-not-run:" + rec["real_skipped"])
+            chk.case((stream, cap, json.dumps(payload, sort_keys=True)), nontrivial=True)
+            self.machine_part(rec, cap, payload, None)
+            return
         raw = rec["raw"]
         nontrivial = any(len(ix) == 2 and len(ix[1]) > 0 for ix in raw["indices"])
         chk.case((stream, cap, json.dumps(payload, sort_keys=True)), nontrivial=nontrivial)
@@ -483,36 +497,53 @@ class Judge:
                 chk.count(f"reuse:{k}:{'ok' if v == 'ok' else 'skipped'}")
             else:
                 self.violation(f"result cannot be re-used ({k}): {v}", payload, clean_raw(raw))
+        self.machine_part(rec, cap, payload, raw)
+
+    def machine_part(self, rec, cap, payload, raw):
+        chk = self.chk
         m = rec.get("machine")
-        if m:
-            if m["status"] == "memerror":
-                self.violation(f"IR machine: {m['error']['kind']} {m['error']['detail']}", payload, clean_raw(raw))
-            elif m["status"] != "ok":
-                chk.broken.append({"kind": "harness", "what": "IR machine " + m["status"], "error": m.get("error"), "case": payload})
+        if not m:
+            return
+        observed = clean_raw(raw) if raw else m.get("final")
+        if m["status"] == "memerror":
+            self.violation(f"IR machine: {m['error']['kind']} {m['error']['detail']}", payload, observed)
+            return
+        if m["status"] == "outoffuel":
+            self.violation("IR machine: the kernel does not terminate (2 000 000 steps) -- no tensor is returned", payload, observed)
+            return
+        if m["status"] != "ok":
+            chk.broken.append({"kind": "harness", "what": "IR machine " + m["status"], "error": m.get("error"), "case": payload})
+            return
+        mr, why = machine_raw(m["final"])
+        if mr is None:
+            self.violation("IR machine: " + why, payload, m["final"])
+            return
+        chk.count("machine:runs")
+        lc = None
+        try:
+            lc = leaf_count(mr)
+        except Exception:
+            pass
+        if lc is not None and any(v is None for v in mr["vals"][:lc]):
+            self.violation("IR machine: a stored position has no value (uninitialised cell in vals)", payload, m["final"])
+        mr2 = dict(mr)
+        mr2["vals"] = [0.0 if v is None else v for v in mr["vals"]]
+        self.add_tensor(mr2, "machine", payload)
+        if raw is not None:
+            same = mr["indices"] == raw["indices"] and mr2["vals"][: len(raw["vals"])] == raw["vals"]
+            if not same and not rec.get("alloc_problems"):
+                chk.broken.append({"kind": "correspondence", "what": "IR machine and LLVM kernel disagree",
+                                   "case": payload, "machine": mr, "real": clean_raw(raw)})
+        c0 = int(cap) if cap else None
+        for l, t in (m.get("traces") or {}).items():
+            if "unextractable" in t:
+                chk.broken.append({"kind": "correspondence", "what": "protocol trace not of the modelled shape: " + t["unextractable"],
+                                   "level": l, "case": payload})
+            elif any(c is None for c in (t["pos"] or [])) or any(c is None for c in (t["crd"] or [])):
+                pass  # already reported as uninitialised cells
             else:
-                mr, why = machine_raw(m["final"])
-                if mr is None:
-                    self.violation("IR machine: " + why, payload, m["final"])
-                else:
-                    chk.count("machine:runs")
-                    lc = leaf_count(mr)
-                    if any(v is None for v in mr["vals"][:lc]):
-                        self.violation("IR machine: a stored position has no value (uninitialised cell in vals)", payload, m["final"])
-                    mr2 = dict(mr)
-                    mr2["vals"] = [0.0 if v is None else v for v in mr["vals"]]
-                    self.add_tensor(mr2, "machine", payload)
-                    same = mr["indices"] == raw["indices"] and mr2["vals"][: len(raw["vals"])] == raw["vals"]
-                    if not same and not rec.get("alloc_problems"):
-                        chk.broken.append({"kind": "correspondence", "what": "IR machine and LLVM kernel disagree",
-                                           "case": payload, "machine": mr, "real": clean_raw(raw)})
-                    c0 = int(cap) if cap else None
-                    for l, t in (m.get("traces") or {}).items():
-                        if "unextractable" in t:
-                            chk.broken.append({"kind": "correspondence", "what": "protocol trace not of the modelled shape: " + t["unextractable"],
-                                               "level": l, "case": payload})
-                        else:
-                            chk.count("trace:" + t["kind"][0])
-                            self.add_trace(t["kind"], c0, t["d"], t["visits"], t["pos"], t["crd"], dict(payload, level=l))
+                chk.count("trace:" + t["kind"][0])
+                self.add_trace(t["kind"], c0, t["d"], t["visits"], t["pos"], t["crd"], dict(payload, level=l))
 
 
 def corpus_cases():
@@ -529,7 +560,7 @@ def corpus_cases():
 
 def run(chk: Check):
     chk.rule = (
-        "sweep.TEMPLATES + 18 extra templates, restricted to (assignment, formats) whose OUTPUT format has a "
+        "sweep.TEMPLATES + 19 extra templates, restricted to (assignment, formats) whose OUTPUT format has a "
         "compressed level (formats from sweep.format_choices plus every compressed-output format against all-dense "
         "and all-compressed inputs), index sizes in {0,1,2,3} plus one larger mostly-full input, patterns "
         "random/full/empty/explicit zeros, x initial capacity {1,2,3,default}; operators + - * @ on random pairs; "
@@ -578,10 +609,11 @@ def run(chk: Check):
         for rec in recs:
             if "status" in rec:
                 judge.record(rec, cap, stream)
-        if crashed:
+        for begun, crc, cerr in crashed:
             payload = {"capacity": cap, "stream": stream, "request": {k: v for k, v in req.items() if k != "cases"}}
-            payload.update({k: crashed.get(k) for k in ("assignment", "formats", "inputs", "sizes") if k in crashed})
-            judge.violation(f"kernel crashed or hung (worker exit {rc}) while running this case; stderr: {err[-300:]}", payload)
+            payload.update({k: begun.get(k) for k in ("assignment", "formats", "inputs", "sizes") if k in begun})
+            chk.count("worker-crashes")
+            judge.violation(f"kernel crashed or hung (worker exit {crc}) while running this case; stderr: {cerr}", payload)
 
     # ---- deciding oracle: wf_tensorb false by vm_compute on every distinct raw output
     items = [(i, tensor_term(r)) for (i, r) in judge.tensors.values()]
@@ -671,7 +703,7 @@ def replay(chk: Check, payload):
     res = launch_workers(chk, [(cap, req)])[0]
     _, _, recs, crashed, err, rc = res
     if crashed:
-        print("replay: worker crashed", err[-300:])
+        print("replay: worker crashed", crashed[0][1], crashed[0][2])
         return 1
     judge = Judge(chk)
     for rec in recs:
